@@ -59,7 +59,7 @@ func (b *ReaderX) Read(p []byte) error {
 	if l == 0 {
 		return nil
 	}
-	var size, err = b.reader.Read(p)
+	var size, err = io.ReadFull(b.reader, p)
 	if err != nil {
 		return err
 	}
